@@ -25,7 +25,7 @@ MORE_FRAGS = ["\x1b[1;31;44m", "\x1b[39m", "\x1b[49m", "\x1b[91m", "\x1b[97m", "
 # an "off" code switches off both kinds (24 after 21, 25 after 6); SGR 0 does not close a hyperlink (it is not an SGR attribute)
 MORE_FRAGS += ["\x1b[21mu\x1b[24mv", "\x1b[6mu\x1b[25mv", "\x1b[4;21mu\x1b[24mv", "\x1b[21m", "\x1b[24m", "\x1b[6m", "\x1b[25m",
                "\x1b]8;;https://example.org/a\x1b\\L\x1b[0mM", "\x1b]8;id=7;https://example.org/b?x=1;y=2\x1b\\\x1b[1mL\x1b[mM\x1b]8;;\x1b\\N", "\x1b[0m", "\x1b[m"]
-# TODO(audit-2): kept out of the generator until repaired in rich.ansi (witness in /tmp/audit-2/c19/witness_sgr24_25.py):
+# TODO(audit-2): kept out of the generator until repaired in rich.ansi (witness in audit_artifacts/c19/witness_sgr24_25.py):
 #  * empty parameters ("\x1b[;1m", "\x1b[1;m" - an empty parameter means 0 = reset; the decoder skips it)
 HELD_BACK = ["\x1b[;1m", "\x1b[1;m"]
 
